@@ -175,7 +175,10 @@ func (w *Writer) fill(n *node, depth int, flat bool, col int) {
 		} else {
 			x := d2*w.Indent + 1
 			if len(spaces) < x {
+				// Too deep for the indentation, members are separated by
+				// a space as in the flat layout.
 				flat = true
+				cs = []byte{' '}
 			} else {
 				cs = []byte(spaces[0:x])
 				x = depth*w.Indent + 1
@@ -230,7 +233,10 @@ func (w *Writer) fill(n *node, depth int, flat bool, col int) {
 		} else {
 			x := d2*w.Indent + 1
 			if len(spaces) < x {
+				// Too deep for the indentation, members are separated by
+				// a space as in the flat layout.
 				flat = true
+				cs = []byte{' '}
 			} else {
 				cs = []byte(spaces[0:x])
 				x = depth*w.Indent + 1
